@@ -321,7 +321,10 @@ def _get_frame_code_line(frame):
     """
     filename = frame.f_code.co_filename
     lineno = frame.f_lineno
-    code_line = linecache.getline(filename, lineno).strip()
+    # ``f_lineno`` is None when the frame was left from an instruction that has
+    # no line number (e.g. the implicit re-raise of a non-matching ``except*``).
+    code_line = (linecache.getline(filename, lineno).strip()
+                 if lineno is not None else None)
     if code_line is None:
         code_line = f"No code content found at {filename!a}: {lineno}"
         _SAVEFRAME_LOGGER.info(code_line + f" for frame {_get_frame_repr(frame)}")
